@@ -397,7 +397,7 @@ func cmdCheck(args []string) int {
 	}
 	// bounded stand-ins registered for this property (never counted as proved; a failing one is a violation with an
 	// executable replay: the stand-in itself)
-	boundedReports, boundedFailed := runBounded(*prop)
+	boundedReports, boundedFailed := runBounded(*prop, *tier)
 	violations += boundedFailed
 	for i, o := range obls {
 		if i%maxInt(1, len(obls)/5) == 0 && len(samples) < 6 {
@@ -487,7 +487,7 @@ func init() {
 // runBounded runs the bounded stand-ins listed in /verif/bounded/index.json for the property: in-package tests injected
 // with -overlay into the real package of /repo's working tree. They check a TRUSTED contract on the real function for a
 // stated, finite set of inputs.
-func runBounded(prop string) ([]map[string]interface{}, int) {
+func runBounded(prop, tier string) ([]map[string]interface{}, int) {
 	raw, err := os.ReadFile(filepath.Join(verifDir, "bounded", "index.json"))
 	if err != nil {
 		return nil, 0
@@ -495,6 +495,7 @@ func runBounded(prop string) ([]map[string]interface{}, int) {
 	var items []struct {
 		Property, Name, File, Dest, Pkg, Run, Bound string
 		StandsInFor                               string   `json:"stands_in_for"`
+		BoundThorough                             string   `json:"bound_thorough"`
 		Hide                                      []string `json:"hide"` // test files of the package replaced by an empty file for this run (e.g. one whose init() binds a fixed port)
 	}
 	if err := json.Unmarshal(raw, &items); err != nil {
@@ -529,9 +530,10 @@ func runBounded(prop string) ([]map[string]interface{}, int) {
 		ovData, _ := json.Marshal(ov)
 		ovPath := filepath.Join(dir, "ov.json")
 		os.WriteFile(ovPath, ovData, 0o644)
-		cmd := exec.Command("go", "test", "-overlay", ovPath, "-vet=off", "-count=1", "-timeout", "120s", "-run", "^"+it.Run+"$", "-v", it.Pkg)
+		cmd := exec.Command("go", "test", "-overlay", ovPath, "-vet=off", "-count=1", "-timeout", "600s", "-run", "^"+it.Run+"$", "-v", it.Pkg)
 		cmd.Dir = repoDir
-		cmd.Env = append(os.Environ(), "GOFLAGS=-mod=mod", "GOPROXY=off", "GOSUMDB=off", "GOTOOLCHAIN=local")
+		// the harnesses widen their bounds when GOVC_TIER=thorough
+		cmd.Env = append(os.Environ(), "GOFLAGS=-mod=mod", "GOPROXY=off", "GOSUMDB=off", "GOTOOLCHAIN=local", "GOVC_TIER="+tier)
 		outb, err := cmd.CombinedOutput()
 		os.RemoveAll(dir)
 		text := string(outb)
@@ -553,7 +555,11 @@ func runBounded(prop string) ([]map[string]interface{}, int) {
 			os.WriteFile(replay, []byte("bounded stand-in "+it.Name+" failed on the real code.\nre-run: cd /repo && go test -overlay <Replace "+it.Dest+" by "+filepath.Join(verifDir, "bounded", it.File)+"> -vet=off -run "+it.Run+" "+it.Pkg+"\n\n"+text), 0o644)
 			fmt.Printf("VIOLATION property=%s replay=%s obligation=bounded:%s status=failed-on-real-code\n", prop, filepath.Join(verifDir, "bounded", it.File), it.Run)
 		}
-		out = append(out, map[string]interface{}{"name": it.Name, "label": "BOUNDED (not a proof)", "bound": it.Bound, "stands_in_for": it.StandsInFor,
+		bound := it.Bound
+		if tier == "thorough" && it.BoundThorough != "" {
+			bound = it.BoundThorough
+		}
+		out = append(out, map[string]interface{}{"name": it.Name, "label": "BOUNDED (not a proof)", "bound": bound, "stands_in_for": it.StandsInFor,
 			"status": status, "cases_run": cases, "secs": time.Since(start).Seconds(), "harness": filepath.Join("bounded", it.File)})
 	}
 	return out, failed
